@@ -36,6 +36,14 @@ var nets = []string{"tcp", "unix"}
 var modes = []string{"LT", "ET", "ONESHOT"}
 var origins = []string{"onopen", "regap", "ondata", "foreign", "timer", "onclose-other", "dialcb"}
 
+// modeTag names the epoll mode of a case in signatures and cells.
+func modeTag(c caseT) string {
+	if c.Cfg.Async {
+		return c.Cfg.Mode + "-async"
+	}
+	return c.Cfg.Mode
+}
+
 func genCase(r *h.Run, phase string, idx int) caseT {
 	rng := r.Rand("c04-"+phase, idx)
 	c := caseT{Index: idx, Seed: rng.Int63()}
@@ -43,6 +51,9 @@ func genCase(r *h.Run, phase string, idx int) caseT {
 	c.Cfg.Mode = modes[(idx/2)%3]
 	c.Origin = origins[(idx/6)%len(origins)]
 	c.Cfg.NPoller = 1
+	// asynchronous reading (ET and ONESHOT): the reading job re-arms the one-shot event itself, and
+	// writes issued in data callbacks run on its goroutine
+	c.Cfg.Async = c.Cfg.Mode != "LT" && (idx/(6*len(origins)))%2 == 1
 	if rng.Intn(2) == 0 {
 		c.Cfg.SndBuf = 8192
 		c.Cfg.RcvBuf = 8192
@@ -400,9 +411,9 @@ func runCase(r *h.Run, c caseT) {
 	stream := got
 	gotMu.Unlock()
 
-	cell := fmt.Sprintf("%s/%s/%s", c.Cfg.Net, c.Cfg.Mode, c.Origin)
+	cell := fmt.Sprintf("%s/%s/%s", c.Cfg.Net, modeTag(c), c.Origin)
 	if stalled {
-		r.Violate(fmt.Sprintf("c04:%s:%s:%s:stall", c.Cfg.Net, c.Cfg.Mode, c.Origin), "backlog never drains although the peer keeps reading and the socket is writable: "+stallInfo, c)
+		r.Violate(fmt.Sprintf("c04:%s:%s:%s:stall", c.Cfg.Net, modeTag(c), c.Origin), "backlog never drains although the peer keeps reading and the socket is writable: "+stallInfo, c)
 		return
 	}
 	if closed && !complete {
@@ -410,7 +421,7 @@ func runCase(r *h.Run, c caseT) {
 		return
 	}
 	if is := outb.CheckStream(cs, stream, complete); is != nil {
-		r.Violate(fmt.Sprintf("c04:%s:%s:drained-stream-corrupt:%s", c.Cfg.Net, c.Cfg.Mode, is.Sig), is.Detail+"\n"+stallInfo, c)
+		r.Violate(fmt.Sprintf("c04:%s:%s:drained-stream-corrupt:%s", c.Cfg.Net, modeTag(c), is.Sig), is.Detail+"\n"+stallInfo, c)
 		return
 	}
 	r.Seen("cells", cell)
@@ -436,9 +447,9 @@ func guarded(r *h.Run, c caseT) {
 	case "":
 		return
 	case "spin":
-		r.Violate(fmt.Sprintf("c04:%s:%s:%s:spin-no-progress", c.Cfg.Net, c.Cfg.Mode, c.Origin), v.Detail, c)
+		r.Violate(fmt.Sprintf("c04:%s:%s:%s:spin-no-progress", c.Cfg.Net, modeTag(c), c.Origin), v.Detail, c)
 	case "deadlock":
-		r.Violate(fmt.Sprintf("c04:%s:%s:%s:deadlock-no-progress", c.Cfg.Net, c.Cfg.Mode, c.Origin), v.Detail, c)
+		r.Violate(fmt.Sprintf("c04:%s:%s:%s:deadlock-no-progress", c.Cfg.Net, modeTag(c), c.Origin), v.Detail, c)
 	default:
 		r.Inconclusive(fmt.Sprintf("case %d: %s", c.Index, v.Detail))
 	}
